@@ -139,6 +139,7 @@ struct BodyFacts<'a, 'tcx> {
     refs: Vec<String>,
     asserts: Vec<String>,
     aggregates: Vec<String>,
+    consts: Vec<String>,
 }
 
 impl<'a, 'tcx> BodyFacts<'a, 'tcx> {
@@ -307,6 +308,38 @@ impl<'a, 'tcx> MirVisitor<'tcx> for BodyFacts<'a, 'tcx> {
                 location.block.index()
             ));
         }
+        else {
+            // integer-valued constants (also single-field integer newtypes), evaluated by rustc
+            let tcx = cx.tcx;
+            let env = TypingEnv::post_analysis(tcx, self.owner);
+            if let Ok(val) = c.const_.eval(tcx, env, c.span) {
+                if let Some(si) = val.try_to_scalar_int() {
+                    let mut leaf = t;
+                    if let ty::Adt(def, gargs) = t.kind() {
+                        if def.is_struct() && def.all_fields().count() == 1 {
+                            if let Some(f) = def.all_fields().next() {
+                                leaf = f.ty(tcx, gargs);
+                            }
+                        }
+                    }
+                    let v: Option<String> = match leaf.kind() {
+                        ty::Int(_) => Some(si.to_int(si.size()).to_string()),
+                        ty::Uint(_) => Some(si.to_uint(si.size()).to_string()),
+                        ty::Bool => Some(si.to_uint(si.size()).to_string()),
+                        _ => None,
+                    };
+                    if let Some(v) = v {
+                        self.consts.push(format!(
+                            "{{\"text\":{},\"val\":{},\"ty\":{},\"bb\":{}}}",
+                            esc(&format!("{:?}", c)),
+                            esc(&v),
+                            esc(&t.to_string()),
+                            location.block.index()
+                        ));
+                    }
+                }
+            }
+        }
         self.super_const_operand(c, location);
     }
 }
@@ -397,6 +430,7 @@ impl Callbacks for Cb {
                 refs: vec![],
                 asserts: vec![],
                 aggregates: vec![],
+                consts: vec![],
             };
             bf.visit_body(body);
             let (file, line, _c, end_line) = cx.loc(body.span);
@@ -468,7 +502,7 @@ impl Callbacks for Cb {
             let mut s = String::new();
             let _ = write!(
                 s,
-                "{{\"key\":{},\"id\":{},\"kind\":{},\"file\":{},\"line\":{},\"end_line\":{},\"exp\":{},\"derived\":{},\"root\":{},\"parent\":{},\"trait_item\":{},\"is_default\":{},\"self_ty\":{},\"arg_count\":{},\"calls\":[{}],\"refs\":[{}],\"asserts\":[{}],\"aggregates\":[{}],\"succ\":[{}],\"idom\":[{}],\"blocks\":[{}],\"locals\":{{{}}},\"names\":{{{}}}}}",
+                "{{\"key\":{},\"id\":{},\"kind\":{},\"file\":{},\"line\":{},\"end_line\":{},\"exp\":{},\"derived\":{},\"root\":{},\"parent\":{},\"trait_item\":{},\"is_default\":{},\"self_ty\":{},\"arg_count\":{},\"calls\":[{}],\"refs\":[{}],\"asserts\":[{}],\"aggregates\":[{}],\"consts\":[{}],\"succ\":[{}],\"idom\":[{}],\"blocks\":[{}],\"locals\":{{{}}},\"names\":{{{}}}}}",
                 esc(&cx.key(did)),
                 esc(&cx.path(did)),
                 esc(kind),
@@ -487,6 +521,7 @@ impl Callbacks for Cb {
                 bf.refs.join(","),
                 bf.asserts.join(","),
                 bf.aggregates.join(","),
+                bf.consts.join(","),
                 succ,
                 idom,
                 blocks,
@@ -499,6 +534,31 @@ impl Callbacks for Cb {
                 }
             );
             bodies.push(s);
+            // promoted constants of this body (e.g. a `($min..=$max)` range literal): calls and integer constants only
+            for (pi, pb) in tcx.promoted_mir(did).iter_enumerated() {
+                let mut pf = BodyFacts { cx: &cx, body: pb, owner: did, calls: vec![], refs: vec![], asserts: vec![], aggregates: vec![], consts: vec![] };
+                pf.visit_body(pb);
+                let mut ps = String::new();
+                let pstm: Vec<String> = pb.basic_blocks.iter().map(|d| format!("{{\"stmts\":[{}],\"term\":{},\"cleanup\":{}}}", d.statements.iter().map(|s| esc(&format!("{:?}", s))).collect::<Vec<_>>().join(","), esc(&format!("{:?}", d.terminator().kind)), d.is_cleanup)).collect();
+                let _ = write!(
+                    ps,
+                    "{{\"key\":{},\"id\":{},\"kind\":\"promoted\",\"file\":{},\"line\":{},\"end_line\":{},\"exp\":{},\"derived\":{},\"root\":{},\"parent\":{},\"trait_item\":null,\"is_default\":false,\"self_ty\":null,\"arg_count\":0,\"calls\":[{}],\"refs\":[],\"asserts\":[],\"aggregates\":[{}],\"consts\":[{}],\"succ\":[],\"idom\":[],\"blocks\":[{}],\"locals\":{{}},\"names\":{{}}}}",
+                    esc(&format!("{}::promoted[{}]", cx.key(did), pi.index())),
+                    esc(&format!("{}::promoted[{}]", cx.path(did), pi.index())),
+                    esc(&file),
+                    line,
+                    end_line,
+                    from_exp,
+                    attrs_derive,
+                    esc(&cx.key(did)),
+                    esc(&cx.key(did)),
+                    pf.calls.join(","),
+                    pf.aggregates.join(","),
+                    pf.consts.join(","),
+                    pstm.join(",")
+                );
+                bodies.push(ps);
+            }
         }
         // HIR oracle
         let mut fields = Vec::new();
